@@ -1412,19 +1412,21 @@ func (g *Gen) shutdownCase(i int) Group {
 	g.nextRid++
 	tx := &Reg{ID: g.nextRid, Life: Scoped, Form: Form{Kind: "ctor", Params: []Param{{Dep: Dep{Ty: 8 + tys[0]}}}, Rets: []int{8 + tys[1]}}, Dyn: []int{8 + tys[1]}, CFail: []bool{false}}
 	g.nextRid++
-	tr := &Reg{ID: g.nextRid, Life: Transient, Form: Form{Kind: "ctor", Rets: []int{8 + tys[2]}}, Dyn: []int{8 + tys[2]}, CFail: []bool{false}}
+	tr := &Reg{ID: g.nextRid, Life: Transient, Form: Form{Kind: "ctor", Rets: []int{8 + tys[2]}}, Dyn: []int{8 + tys[2]}, CFail: []bool{g.p(0.4)}}
 	g.nextRid++
 	ops := addOps([]*Reg{db, tx, tr})
 	ops = append(ops, Op{Kind: "build"})
 	// an application scope (own context 1), request scopes below it or next to it (own contexts)
 	ops = append(ops, Op{Kind: "createscope", P: 0, Parent: 0, Ctx: 1}) // 1
 	ops = append(ops, Op{Kind: "resolve", P: 0, H: 1, Ty: 8 + tys[1]})
-	nreq := 1 + g.n(3)
+	nreq := 1 + g.n(5)
+	parents := make([]int, nreq)
 	for k := 0; k < nreq; k++ {
 		parent := 0
 		if g.p(0.6) {
 			parent = 1
 		}
+		parents[k] = parent
 		ops = append(ops, Op{Kind: "createscope", P: 0, Parent: parent, Ctx: 2 + k})
 		h := 2 + k
 		ops = append(ops, Op{Kind: "resolve", P: 0, H: h, Ty: 8 + tys[1]})
@@ -1432,18 +1434,18 @@ func (g *Gen) shutdownCase(i int) Group {
 			ops = append(ops, Op{Kind: "resolve", P: 0, H: h, Ty: 8 + tys[2]})
 		}
 	}
-	c := 1 + g.n(1+nreq)
-	switch {
-	case c >= 2 && g.p(0.35):
-		// the request's context is cancelled, then its parent scope (or the provider) is closed
-		ops = append(ops, Op{Kind: "cancel", Ctx: c, NoWait: true})
-		if g.p(0.5) {
-			ops = append(ops, Op{Kind: "close", P: 0, H: 1})
-		} else {
-			ops = append(ops, Op{Kind: "closeprovider", P: 0})
+	// which context is cancelled, and which owner is closed while its watcher is at work: the provider (any context), or
+	// the application scope (a request scope below it)
+	var below []int
+	for k := 0; k < nreq; k++ {
+		if parents[k] == 1 {
+			below = append(below, 2+k)
 		}
-	default:
-		ops = append(ops, Op{Kind: "cancel", Ctx: c, NoWait: true}, Op{Kind: "closeprovider", P: 0})
+	}
+	if len(below) > 0 && g.p(0.5) {
+		ops = append(ops, Op{Kind: "cancel", Ctx: below[g.n(len(below))], NoWait: true}, Op{Kind: "close", P: 0, H: 1})
+	} else {
+		ops = append(ops, Op{Kind: "cancel", Ctx: 1 + g.n(1+nreq), NoWait: true}, Op{Kind: "closeprovider", P: 0})
 	}
 	ops = append(ops, Op{Kind: "closeprovider", P: 0}, Op{Kind: "resolve", P: 0, H: 0, Ty: 8 + tys[0]})
 	return Group{Cases: []Case{{Name: fmt.Sprintf("%d/shutdown", i), Ops: ops, SlowClose: true}}}
